@@ -773,6 +773,11 @@ def getinterpweights(xs, nxs, kind='linear', fill_value='extrapolate',
 
     """
     from scipy.interpolate import interp1d
+    xs = np.asarray(xs)
+    if xs.size == 1:
+        # a single source point cannot be interpolated (interp1d would
+        # return nan); its value is continued to every target
+        return np.ones((1, np.size(nxs)), dtype='d')
     # identity matrix
     ident = np.identity(xs.size)
     # weight function; use bounds outside
